@@ -367,12 +367,10 @@ func (r *RdbReader) ReadZipmapItem(buf *util.SliceBuffer, readFree bool) []byte 
 
 func readZipmapItemLength(buf *util.SliceBuffer, readFree bool) (int, int) {
 	b := buf.ReadByte()
+	length := int(b)
 	switch b {
-	case 253:
-		s := buf.Slice(5)
-		return int(binary.BigEndian.Uint32(s)), int(s[4])
-	case 254:
-		panic(errors.Errorf("rdb: invalid zipmap item length"))
+	case 254: // redis zipmap.c ZIPMAP_BIGLEN : a 4 bytes length follows, 0..253 are single byte lengths
+		length = int(binary.LittleEndian.Uint32(buf.Slice(4)))
 	case 255:
 		return -1, 0
 	}
@@ -380,7 +378,7 @@ func readZipmapItemLength(buf *util.SliceBuffer, readFree bool) (int, int) {
 	if readFree {
 		free = buf.ReadByte()
 	}
-	return int(b), int(free)
+	return length, int(free)
 }
 
 func (r *RdbReader) CountZipmapItemsP(buf *util.SliceBuffer) int {
